@@ -1,5 +1,6 @@
 import TensorModel.Proofs.Kernels
 import TensorModel.Proofs.MinMax
+import TensorModel.Proofs.IterPaths
 /-!
   C07 — option modes: safe is pure; `UseUnsafe` / `WithReuse` / `WithIncr` write only their destination.
   Property theorems only; helper lemmas live in `TensorModel/Proofs/Kernels.lean`
@@ -63,6 +64,35 @@ theorem unsafe_writes_only_a (st : St) (op : String) (a b : Dense)
   obtain ⟨st', h, w⟩ := engArithVV_unsafe_raw' st op numberTypes a b (binOK a b hsh hdt hnum)
     (by simpa using hk) hia hib hord hne hlen hcap hA hB
   exact ⟨_, h, rfl, w.sem2 hA.has hB.has⟩
+
+/-- **`UseUnsafe()` on the iterator path** - the first operand is a view with gaps or carries a pending transpose, or the
+    operands differ in layout: exactly the logical elements of `a` (the cells its iterator addresses) are overwritten,
+    each with `op` of the two operands' elements at the same position of the logical order, and `a` is returned;
+    everything else - the gaps of the view, the rest of its parent, `b`, every other buffer, the mask heap - is
+    unchanged. "Writes stay inside the view" for in-place arithmetic (C04) is this frame. -/
+theorem unsafe_iter_writes_only_a (st : St) (op : String) (a b : Dense)
+    (hsh : shapeEq a.shape b.shape = true) (hdt : a.dt = b.dt) (hnum : a.dt ∈ numberTypes)
+    (hk : a.dt ∈ kernelTypes op)
+    (hu : (a.requiresIterator || b.requiresIterator || !sameOrd a b) = true)
+    (hma : a.mask = none) (hmb : b.mask = none) (hla : a.win.len ≠ 1) (hlb : b.win.len ≠ 1)
+    (hne : a.win.buf ≠ b.win.buf)
+    (hoa : ∀ i ∈ a.offsets, 0 ≤ i ∧ i < (a.win.len : Int)) (hob : ∀ j ∈ b.offsets, 0 ≤ j ∧ j < (b.win.len : Int))
+    (hnd : a.offsets.Nodup)
+    (hA : InBuf st a.win.buf a.win.off a.win.len) (hB : InBuf st b.win.buf b.win.off b.win.len) :
+    ∃ out, engArithVV st op numberTypes a b { unsafe_ := true } = .ok out ∧ out.ret = .a ∧
+      out.st.mheap = st.mheap ∧
+      (∀ (k : Nat) i j, a.offsets[k]? = some i → b.offsets[k]? = some j →
+        ∃ x y, cell st a.win.buf (a.win.off + i.toNat) = some x ∧ cell st b.win.buf (b.win.off + j.toNat) = some y ∧
+          cell out.st a.win.buf (a.win.off + i.toNat) = some (.app2 op x y)) ∧
+      (∀ b' k', (b' ≠ a.win.buf ∨ ∀ (k : Nat) i j, a.offsets[k]? = some i → b.offsets[k]? = some j →
+          k' ≠ a.win.off + i.toNat) → cell out.st b' k' = cell st b' k') := by
+  obtain ⟨st', h, hm, hv, hfr⟩ := engArithVV_unsafe_iter' st op numberTypes a b (binOK a b hsh hdt hnum)
+    (by simpa using hk) hu hma hmb hla hlb hne hoa hob hnd hA hB
+  refine ⟨_, h, rfl, hm, ?_, hfr⟩
+  intro k i j hi hj
+  have h1 := hoa i (List.mem_of_getElem? hi)
+  have h2 := hob j (List.mem_of_getElem? hj)
+  exact ⟨_, _, cell_some_cellD (hA.has.at h1.1 h1.2), cell_some_cellD (hB.has.at h2.1 h2.2), hv k i j hi hj⟩
 
 /-- **`MinBetween` / `MaxBetween` with `UseUnsafe()`** (finding F11, repaired: no result tensor is allocated when the
     call is to work in place), raw path: the elementwise minimum / maximum overwrites the window of `a` and `a` itself
@@ -283,6 +313,8 @@ example := safe_is_pure_iter st "add" tT tb (by decide) rfl (by decide) (by deci
   (by decide) (by decide) (by decide) (by decide) inA inB
 example := unsafe_writes_only_a st "add" ta tb (by decide) rfl (by decide) (by decide) (by decide) (by decide)
   (by decide) (by decide) rfl (by decide) inA inB
+example := unsafe_iter_writes_only_a st "add" tT tb (by decide) rfl (by decide) (by decide) (by decide) rfl rfl (by decide)
+  (by decide) (by decide) (by decide) (by decide) (by decide) ⟨_, rfl, by decide⟩ ⟨_, rfl, by decide⟩
 example := minmax_unsafe_writes_only_a st "minb" ta tb (by decide) rfl (by decide) (by decide) (by decide) (by decide)
   (by decide) rfl (by decide) inA inB
 /-- the former witness of F11 (`mmb minb fn $0 $1 unsafe`) runs: cell 0 of `a` holds `minb a[0] b[0]` -/
